@@ -44,15 +44,34 @@ def _symb(v):
     return isinstance(v, SB)
 
 
+def _guarded_eval(th, acc, want):
+    """evaluate the next operand of a short-circuit chain whose prefix `acc` is symbolic.
+    Python would only evaluate it when the prefix is `want`; if evaluating it raises, fork on the prefix."""
+    MERGE_DEPTH[0] += 1
+    try:
+        try:
+            return th(), False
+        except sc.Inconclusive:
+            raise
+        except Exception:
+            pass
+    finally:
+        MERGE_DEPTH[0] -= 1
+    if bool(acc) == want:
+        return th(), False      # the operand really is evaluated on this path: let the exception propagate
+    return None, True           # short-circuited
+
+
 def and_(*thunks):
     acc = None
     last = thunks[-1]
     for th in thunks:
-        MERGE_DEPTH[0] += 1 if acc is not None else 0
-        try:
+        if acc is None:
             v = th()
-        finally:
-            MERGE_DEPTH[0] -= 1 if acc is not None else 0
+        else:
+            v, cut = _guarded_eval(th, acc, True)
+            if cut:
+                return False
         if isinstance(v, (SF, SI)) and th is not last:
             v = mkbool(bt(v))
         if not _symb(v):
@@ -85,11 +104,12 @@ def or_(*thunks):
     acc = None
     last = thunks[-1]
     for th in thunks:
-        MERGE_DEPTH[0] += 1 if acc is not None else 0
-        try:
+        if acc is None:
             v = th()
-        finally:
-            MERGE_DEPTH[0] -= 1 if acc is not None else 0
+        else:
+            v, cut = _guarded_eval(th, acc, False)
+            if cut:
+                return True
         if isinstance(v, (SF, SI)) and th is not last:
             v = mkbool(bt(v))
         if not _symb(v):
